@@ -9,6 +9,8 @@ JSON-lines driver for the gbnf engine: one request per line on stdin, one reply 
   {"op":"rule_match","text":s,"rule":s,"strings":[s…],"fuel":n}    (value part of a compiled field rule: items after `ws`)
   {"op":"sanitize","lower":s} -> {"out":s}      {"op":"escape","s":s} -> {"out":s}
   {"op":"py_number","s":s} -> {"m":b}   {"op":"valid_ymd","s":s} -> {"m":b}
+  {"op":"chain_accepts","kind":{"k":"CONST","ct":"bool"|"none"|"int"|"float"|"str","s":s} | {"k":"ENUM","a":[s…]} | {"k":"TYPE","t":s} | {"k":"REQ"} | {"k":"OPT"},
+   "s":text,"inf":b,"repr":s,"eq":b,"ieq":b}  -> {"reads":null|"int:…"|"float:…"|"bool:…"|"null"|"str:…","ok":b}     (Spec/ChainAccept; float facts of THIS text/const pair supplied by the harness)
           {"op":"chain","chain":[constraint…]} -> {"frag":s,"deciding":kind|null} | {"raise":true}
 field: {"name":s,"lower":s,"chain":null | [constraint…]}
 constraint: {"k":"REQ"|"OPT"|"DIR"|"APPEND_ONLY"|"RANGE"|"MAX_LENGTH"|"DATE"|"ISO8601"|"OTHER"} | {"k":"ENUM","a":[s…]}
@@ -19,6 +21,7 @@ import Octave.Model.Gbnf
 import Octave.Spec.GbnfSyntax
 import Octave.Spec.PyNumber
 import Octave.Spec.Calendar
+import Octave.Spec.ChainAccept
 open Lean Octave Octave.Gbnf
 
 def strOf (j : Json) (k : String) : Except String Str := do
@@ -94,6 +97,36 @@ def valueAlts (g : Grammar) (rule : Str) : Option Alts :=
     go seq
   | _ => none
 
+def chainKindOfJson (j : Json) : Except String ChainKind := do
+  let k ← j.getObjValAs? String "k"
+  match k with
+  | "ENUM" => do
+    let a ← j.getObjValAs? (Array String) "a"
+    pure (.enum (a.toList.map String.toList))
+  | "TYPE" => do pure (.type (← strOf j "t"))
+  | "REQ" => pure .req
+  | "OPT" => pure .opt
+  | "CONST" => do
+    let ct ← j.getObjValAs? String "ct"
+    let sv ← strOf j "s"
+    match ct with
+    | "bool" => pure (.const (.bool (sv == "True".toList)))
+    | "none" => pure (.const .none)
+    | "int" => match (String.ofList sv).toInt? with
+      | some i => pure (.const (.int i))
+      | none => throw "int"
+    | "float" => pure (.const (.float sv))
+    | _ => pure (.const (.str sv))
+  | other => throw s!"unsupported chain kind {other}"
+
+def readValJson : Option ReadVal → Json
+  | none => Json.null
+  | some (.int i) => Json.str s!"int:{i}"
+  | some (.float l) => Json.str ("float:" ++ String.ofList l)
+  | some (.bool b) => Json.str s!"bool:{b}"
+  | some .null => Json.str "null"
+  | some (.str t) => Json.str ("str:" ++ String.ofList t)
+
 def handle (j : Json) : Except String Json := do
   let op ← j.getObjValAs? String "op"
   match op with
@@ -156,6 +189,15 @@ def handle (j : Json) : Except String Json := do
   | "escape" => pure (Json.mkObj [("out", jstr (escapeLiteral (← strOf j "s")))])
   | "py_number" => pure (Json.mkObj [("m", Json.bool (pyNumberFull (← strOf j "s")))])
   | "valid_ymd" => pure (Json.mkObj [("m", Json.bool (validYMD (← strOf j "s")))])
+  | "chain_accepts" =>
+    let kind ← chainKindOfJson (← j.getObjVal? "kind")
+    let t ← strOf j "s"
+    let inf ← j.getObjValAs? Bool "inf"
+    let rp ← strOf j "repr"
+    let eq ← j.getObjValAs? Bool "eq"
+    let ieq ← j.getObjValAs? Bool "ieq"
+    let env : ChainEnv := { floatInf := fun _ => inf, floatRepr := fun _ => rp, floatEq := fun _ _ => eq, intFloatEq := fun _ _ => ieq }
+    pure (Json.mkObj [("reads", readValJson (readsAs env t)), ("ok", Json.bool (chainAccepts env kind t))])
   | "chain" =>
     match ← chainOfJson (← j.getObjVal? "chain") with
     | none => throw "chain"
